@@ -67,24 +67,26 @@ type RandomizeScheduledAt struct {
 }
 
 func (r RandomizeScheduledAt) Mutate(p def.TaskUpdateParam) def.TaskUpdateParam {
-	diff := r.Max - r.Min
-	neg := false
-	if diff < 0 {
-		neg = true
-		diff = -diff
+	// Max - Min may overflow int64.
+	diff := new(big.Int).Sub(big.NewInt(int64(r.Max)), big.NewInt(int64(r.Min)))
+	neg := diff.Sign() < 0
+	diff.Abs(diff)
+
+	offset := big.NewInt(int64(r.Min))
+	// rand.Int panics if its argument is 0. Min == Max means the window is only a point.
+	if diff.Sign() != 0 {
+		randVal, err := rand.Int(randomReader, diff)
+		if err != nil {
+			panic(err)
+		}
+		if neg {
+			randVal.Neg(randVal)
+		}
+		offset.Add(offset, randVal)
 	}
 
-	randBigVal, err := rand.Int(randomReader, big.NewInt(int64(diff)))
-	if err != nil {
-		panic(err)
-	}
-
-	randVal := randBigVal.Int64()
-	if neg {
-		randVal = -randVal
-	}
-
+	// offset is in between Min and Max. It is in range of int64.
 	return p.Update(def.TaskUpdateParam{
-		ScheduledAt: option.Some(p.ScheduledAt.Value().Add(r.Min + time.Duration(randVal))),
+		ScheduledAt: option.Some(p.ScheduledAt.Value().Add(time.Duration(offset.Int64()))),
 	})
 }
